@@ -97,8 +97,8 @@ class C20(Prop):
             "-1..9 and every name string (plus case variants, unknown names, absent header) at each of the five places. "
             "non-trivial = a step decoded the expected bytes, or a name-table case")
     trusted_base = ("Coq 8.16.1 kernel (vm_compute used, native_compute not)", "extraction (ExtrOcamlBasic only) + ocaml/driver.ml",
-                    "vlib generators/comparator, Go overlay harness files (incl. the algorithm probe and the go/ast reading of "
-                    "server.go / client.go option lists)",
+                    "vlib generators/comparator, Go overlay harness files (incl. the algorithm probe, the go/ast reading of "
+                    "server.go / client.go option lists and the lock-step scheduler of the two-instance histories)",
                     "modelled not verified: compress/gzip, compress/zlib, andybalholm/brotli, golang/snappy, klauspost/compress/zstd "
                     "(abstract reader/writer objects with the contract of C20_Spec.v: a Reset or new object behaves as a fresh one, "
                     "malformed input is an error not a panic, decode(encode x) = x, ONE Read delivers some prefix of what is to come "
@@ -124,13 +124,19 @@ class C20(Prop):
                   "stand-in codec used for extraction is representative); and the five name tables regenerated from the Go code "
                   "agree (by computation). The model is tied to the Go code by a bounded-exhaustive plus random differential run "
                   "of scripted histories against the real libraries, and by live corrupted-then-valid sequences through the "
-                  "reference server and client, on every check.")
+                  "reference server and client, on every check. Two instances obtained from the same constructor are modelled as a pair "
+                  "machine: proved (instances_independent, for any step function and any interleaving) that what a user observes of its "
+                  "instance does not depend on the other user's operations, and every place that hands out instances (GetCompressor / "
+                  "GetDecompressor, the New* constructors the peers register, tracer.GetDecompressor) is driven with two interleaved "
+                  "histories and compared with that machine.")
     level_note = ("Conditional on the library contract (Section hypotheses, inhabited by the stand-in codec used for extraction): the "
                   "codecs themselves are third-party and not verified; 'decode(encode x) = x' for them is tested, not proved. "
                   "Termination of a loop of single reads needs the extra hypothesis lib_progress. Correspondence model/Go is sampled "
                   "(bounded-exhaustive histories), not proved. Results of steps the contract leaves open (reads after a failure or "
                   "Close of a library object, single reads of a failing stream) are compared only as panicked / did not panic. Live "
-                  "sequences rely on sync.Pool handing the instance back (not guaranteed by Go, made the rule with one P).")
+                  "sequences rely on sync.Pool handing the instance back (not guaranteed by Go, made the rule with one P). Two-instance "
+                  "histories are interleaved in lock-step (one operation at a time); truly concurrent use is not modelled, and the live "
+                  "peers are not driven with overlapping RPCs for this purpose (their registered constructors are driven directly).")
     technique = ("Coq proof (invariant over wrapper states, all histories; simulation of two libraries for the projection) + "
                  "computation over regenerated tables; differential model-vs-Go on scripted histories and live sequences")
 
